@@ -53,12 +53,14 @@ type Resp struct {
 
 // Op is one operation of a history.
 type Op struct {
-	Kind     string  `json:"kind"`             // call|dropcache|purge|rewrite|getblock
+	Kind     string  `json:"kind"`             // call|dropcache|purge|rewrite|rollback|extend|getblock
 	Hold     bool    `json:"hold,omitempty"`   // call A: its query is held open while the next call is started
 	Queued   bool    `json:"queued,omitempty"` // call B: started while the held call is in flight
 	From     int     `json:"from,omitempty"`   // rewrite: filter headers From..tip are rolled back and re-written
 	Toggle   []int   `json:"toggle,omitempty"` // rewrite: heights whose committed filter changes
 	NewFHs   []int64 `json:"new_fhs,omitempty"`
+	Upto     int     `json:"upto,omitempty"`     // extend: filter headers tip+1..Upto are committed (Toggle applies)
+	NewBest  int64   `json:"new_best,omitempty"` // rewrite/rollback/extend: the filter header tip afterwards (observed)
 	Height   int     `json:"height"` // -1: a hash without a header
 	FType    int     `json:"ftype"`  // 0 regular
 	Batch    int     `json:"batch"`  // 0 none, 1 forward, 2 reverse
@@ -514,6 +516,38 @@ func corpus(cfgs []ChainCfg) []History {
 			ow(3, but(3, 1, 9), []int{35}, but(3, 10, 31), []int{36}, but(3, 1, 9)),
 			ow(30, but(30, 20, 36), but(30, 1, 19), []int{2}, but(30, 20, 44)),
 			call(12, 0, 0, "err"), call(20, 0, 0, "err"),
+		}},
+		// filter headers rolled back below blocks with local copies (no
+		// re-commit): nothing above the filter header tip may be returned,
+		// from cache or database, whatever the network says; then the headers
+		// catch up, block 12 committing to another filter
+		{ID: 15, Chain: a, CacheCap: 1 << 20, Persist: true, Ops: []Op{
+			call(8, 1, 5, "ok", honestRange(8, 12)...),
+			{Kind: "rollback", From: 11},
+			call(12, 0, 0, "ok", H(12)),
+			call(11, 2, 3, "ok", H(11), H(10), H(9)),
+			call(10, 0, 0, "err"),
+			{Kind: "dropcache"},
+			call(12, 0, 0, "err"),
+			call(11, 1, 2, "ok", H(11), H(12)),
+			call(10, 0, 0, "err"),
+			{Kind: "extend", Upto: 24, Toggle: []int{12}},
+			call(11, 0, 0, "err"),
+			call(12, 0, 0, "ok", B("alt_variant", 12), H(12)),
+			call(12, 0, 0, "err"),
+		}},
+		// the reset variant, not persisted: filter headers back to the genesis
+		// block, the cache still holding the filters
+		{ID: 16, Chain: a, CacheCap: 1 << 20, Persist: false, Ops: []Op{
+			call(3, 1, 4, "ok", honestRange(3, 6)...),
+			{Kind: "rollback", From: 1},
+			call(3, 0, 0, "ok", H(3)),
+			call(1, 2, 3, "ok", H(1)),
+			call(0, 0, 0, "err"),
+			{Kind: "extend", Upto: 5},
+			call(3, 0, 0, "err"),
+			call(6, 0, 0, "ok", H(6)),
+			call(5, 2, 2, "ok"),
 		}},
 		{ID: 7, Chain: a, CacheCap: 1 << 20, Persist: true, Ops: []Op{
 			call(4, 1, 2, "ok", H(4), B("empty", 5), B("bad_n", 5), B("truncate", 5), B("noncfilter", 5), B("badreq", 5), B("badreq_type", 5), B("unknown_block", 5)),
@@ -991,7 +1025,6 @@ func (ru *runner) finishObs(h *History, ctl *callCtl, oi int) bool {
 // From..tip through the real store; the filters committed at the toggled
 // heights change, and so do all headers from From on.
 func (ru *runner) rewrite(op *Op) {
-	fs := ru.env.CS.RegFilterHeaders
 	tip := len(ru.fhs) - 1
 	k := op.From
 	if k < 1 {
@@ -1001,19 +1034,63 @@ func (ru *runner) rewrite(op *Op) {
 		k = tip
 	}
 	op.From = k
+	ru.rechain(op, k, tip)
+}
+
+// rollback rolls the filter headers From..tip back WITHOUT committing new
+// ones: the block headers stay, the blocks From..tip have no committed filter
+// header any more (From = 1: what a reset of the filter headers at start-up
+// leaves behind, the filter database surviving).
+func (ru *runner) rollback(op *Op) {
+	tip := len(ru.fhs) - 1
+	k := op.From
+	if k < 1 {
+		k = 1
+	}
+	if k > tip+1 {
+		k = tip + 1
+	}
+	op.From = k
+	ru.rechain(op, k, k-1)
+}
+
+// extend commits filter headers for the blocks tip+1..Upto (filter headers
+// catching up with the block headers; the committed filter of the toggled
+// heights is the other variant).
+func (ru *runner) extend(op *Op) {
+	tip := len(ru.fhs) - 1
+	n := len(ru.ch.Blocks) - 1
+	if op.Upto > n {
+		op.Upto = n
+	}
+	if op.Upto < tip {
+		op.Upto = tip
+	}
+	ru.rechain(op, tip+1, op.Upto)
+}
+
+// rechain rolls the filter header store back to k-1 (if its tip is above) and
+// writes headers k..upto through the real store; afterwards the committed
+// headers and the tip are read back from the store.
+func (ru *runner) rechain(op *Op, k, upto int) {
+	fs := ru.env.CS.RegFilterHeaders
+	tip := len(ru.fhs) - 1
 	for h := tip; h >= k; h-- {
 		if _, err := fs.RollbackLastBlock(&ru.ch.Hashes[h-1]); err != nil {
 			panic(err)
 		}
 	}
+	if tip >= k {
+		ru.fhs = ru.fhs[:k]
+	}
 	for _, t := range op.Toggle {
-		if t >= k && t <= tip {
+		if t >= k && t <= upto {
 			ru.variant[t] = 1 - ru.variant[t]
 		}
 	}
 	var hdrs []headerfs.FilterHeader
 	prev := ru.fhs[k-1]
-	for h := k; h <= tip; h++ {
+	for h := k; h <= upto; h++ {
 		f := ru.ch.Commit[h]
 		if ru.variant[h] == 1 {
 			f = ru.ch.Alt[h]
@@ -1023,20 +1100,35 @@ func (ru *runner) rewrite(op *Op) {
 			panic(err)
 		}
 		hdrs = append(hdrs, headerfs.FilterHeader{HeaderHash: ru.ch.Hashes[h], FilterHash: nh, Height: uint32(h)})
-		ru.fhs[h] = nh
 		prev = nh
 	}
-	if err := fs.WriteHeaders(hdrs...); err != nil {
+	if len(hdrs) > 0 {
+		if err := fs.WriteHeaders(hdrs...); err != nil {
+			panic(err)
+		}
+	}
+	// what the store says now: its tip (from the index) and the headers up
+	// to it
+	_, ftip, err := fs.ChainTip()
+	if err != nil {
 		panic(err)
 	}
-	// what the store says now
-	for h := k; h <= tip; h++ {
+	ru.fhs = ru.fhs[:k]
+	for h := k; h <= int(ftip); h++ {
 		got, err := fs.FetchHeaderByHeight(uint32(h))
 		if err != nil {
 			panic(err)
 		}
-		ru.fhs[h] = *got
+		ru.fhs = append(ru.fhs, *got)
 	}
+	if int(ftip) < k-1 {
+		ru.fhs = ru.fhs[:ftip+1]
+	}
+	bb, err := ru.env.CS.BestBlock()
+	if err != nil {
+		panic(err)
+	}
+	op.NewBest = int64(bb.Height)
 	op.NewFHs = nil
 	for _, x := range ru.fhs {
 		op.NewFHs = append(op.NewFHs, ru.hdrTok(x))
@@ -1118,8 +1210,15 @@ func runHistory(h *History, work string) {
 			ru.observeCache(op)
 			ru.observeDB(op)
 			continue
-		case "rewrite":
-			ru.rewrite(op)
+		case "rewrite", "rollback", "extend":
+			switch op.Kind {
+			case "rewrite":
+				ru.rewrite(op)
+			case "rollback":
+				ru.rollback(op)
+			default:
+				ru.extend(op)
+			}
 			ru.observeCache(op)
 			ru.observeDB(op)
 			continue
@@ -1244,9 +1343,9 @@ func caseTerm(h *History) (string, string) {
 			steps = append(steps, c.Pair("XP", c.App("O_", "RNone", "false", "(0, 0)", "[]", pairs(op.Cache), pairs(op.DB))))
 			sig = append(sig, "P")
 			continue
-		case "rewrite":
-			steps = append(steps, c.Pair(c.App("XR", c.Z(h.Best), c.Ints(op.NewFHs)), c.App("O_", "RNone", "false", "(0, 0)", "[]", pairs(op.Cache), pairs(op.DB))))
-			sig = append(sig, "W")
+		case "rewrite", "rollback", "extend":
+			steps = append(steps, c.Pair(c.App("XR", c.Z(op.NewBest), c.Ints(op.NewFHs)), c.App("O_", "RNone", "false", "(0, 0)", "[]", pairs(op.Cache), pairs(op.DB))))
+			sig = append(sig, map[string]string{"rewrite": "W", "rollback": "B", "extend": "X"}[op.Kind])
 			continue
 		case "getblock":
 			steps = append(steps, c.Pair(c.App("XG", c.Z(int64(op.Height))), c.App("O_", "RNone", "false", "(0, 0)", "[]", pairs(op.Cache), pairs(op.DB))))
@@ -1354,6 +1453,10 @@ func main() {
 			hs = append(hs, genOverlap(r, len(hs), cfgs[[]int{4, 4, 4, 0}[r.Intn(4)]]))
 		}
 		for i := 0; i < nf; i++ {
+			r := c.Rng(a.Seed, 700000+i)
+			hs = append(hs, genLag(r, len(hs), cfgs[[]int{0, 0, 1, 3, 4}[r.Intn(5)]]))
+		}
+		for i := 0; i < nf; i++ {
 			r := c.Rng(a.Seed, 600000+i)
 			hs = append(hs, genGetBlock(r, len(hs), cfgs[[]int{0, 1, 3, 4}[r.Intn(4)]]))
 		}
@@ -1430,6 +1533,9 @@ func main() {
 		if strings.Contains(sig, "W") {
 			rep.Histogram["histories_with_header_rewrite"]++
 		}
+		if strings.Contains(sig, "B") {
+			rep.Histogram["histories_with_filter_header_rollback"]++
+		}
 		if strings.Contains(sig, "G") {
 			rep.Histogram["histories_with_getblock"]++
 		}
@@ -1490,7 +1596,7 @@ func main() {
 	rep.Histogram["distinct_signatures"] = len(sigs)
 	rep.Evaluations = len(hs)
 	rep.DistinctNontrivial = len(nontrivial)
-	rep.Rule = "histories of 4-9 operations (GetCFilter calls with every batching mode and MaxBatchSize option, cache resets, database purges; a flush barrier after each call) on the real ChainService skeleton (real header stores with committed filter headers of real GCS filters, filterdb on bbolt, batch writer, LRU filter cache) with a scripted work manager feeding honest filters in any order plus 12 kinds of corrupted / foreign / malformed / unsolicited / duplicate responses; targets biased to block 0, 1, the tip, above the best filter header and unknown hashes; a history is non-trivial when it contains a filter returned from the network and an ignored response; distinct = distinct per-call signature (batch mode, progress value per response, outcome N network / L local / E error). Deliberate families (10% of the general count each): retry (a query for a range; the filter headers inside the range rolled back and re-committed through the real store; the SAME query again, answered with filters matching the old headers before / after / among the honest ones; persisted and not), overlap (filters persisted through the batch writer, cache emptied or too small, then lookups whose filter-database read transaction is followed — pinned by a walletdb wrapper, on the caller's goroutine, no sleeps — by 2-6 write commits that rewrite the other stored keys and add new ones; database contents compared afterwards), getblock (GetBlock of a block that spends a real output, answered by the scripted work manager, followed by GetCFilter of the same block; filter cache and database observed after GetBlock)."
+	rep.Rule = "histories of 4-9 operations (GetCFilter calls with every batching mode and MaxBatchSize option, cache resets, database purges; a flush barrier after each call) on the real ChainService skeleton (real header stores with committed filter headers of real GCS filters, filterdb on bbolt, batch writer, LRU filter cache) with a scripted work manager feeding honest filters in any order plus 12 kinds of corrupted / foreign / malformed / unsolicited / duplicate responses; targets biased to block 0, 1, the tip, above the best filter header and unknown hashes; a history is non-trivial when it contains a filter returned from the network and an ignored response; distinct = distinct per-call signature (batch mode, progress value per response, outcome N network / L local / E error). Deliberate families (10% of the general count each): retry (a query for a range; the filter headers inside the range rolled back and re-committed through the real store; the SAME query again, answered with filters matching the old headers before / after / among the honest ones; persisted and not), overlap (filters persisted through the batch writer, cache emptied or too small, then lookups whose filter-database read transaction is followed — pinned by a walletdb wrapper, on the caller's goroutine, no sleeps — by 2-6 write commits that rewrite the other stored keys and add new ones; database contents compared afterwards), lag (filters cached / persisted, the filter headers rolled back below their blocks through the real store without re-commit — or to the genesis block with the cache emptied: the start-up reset — then calls for blocks above and at the filter header tip with the network silent, honest or serving filters matching the old headers; then the headers catch up, some blocks committing to another filter, and the blocks are asked again), getblock (GetBlock of a block that spends a real output, answered by the scripted work manager, followed by GetCFilter of the same block; filter cache and database observed after GetBlock)."
 	for i := 0; i < len(hs) && i < 3; i++ {
 		rep.Samples = append(rep.Samples, hs[i])
 	}
